@@ -101,7 +101,9 @@ fn gen_case(seed: u64, i: u64, tier: &str) -> Case {
     for k in 0..r.range(0, 5) {
         let key = match r.below(3) {
             0 => format!("opt{k}"),
-            _ => r.pick(&["copies", "sides", "media", "print-color-mode", "number-up"]).to_string(),
+            1 => r.pick(&["copies", "sides", "media", "print-color-mode", "number-up"]).to_string(),
+            // keys that coincide with names the library treats specially elsewhere are ordinary job attributes here
+            _ => r.pick(&["job-id", "job-uri", "printer-uri", "attributes-charset", "attributes-natural-language", "job-name", "requesting-user-name", "copies", "Job-Id"]).to_string(),
         };
         let val = match r.below(9) {
             0 => "true".to_string(),
@@ -110,7 +112,7 @@ fn gen_case(seed: u64, i: u64, tier: &str) -> Case {
             3 => r.pick(&["0", "-1", "2147483647", "-2147483648", "2147483648", "-2147483649", "007", "99999999999"]).to_string(),
             4 => format!("a={}", word(&mut r, 0, 5)),
             5 => String::new(),
-            6 => r.pick(&["True", "FALSE", "1.5", "1e3", "0x10", "two-sided-long-edge", "iso_a4_210x297mm"]).to_string(),
+            6 => r.pick(&["True", "FALSE", "1.5", "1e3", "0x10", "two-sided-long-edge", "iso_a4_210x297mm", " 2", "600\n", "true ", "\tfalse", " na letter ", "1 2", " "]).to_string(),
             _ => word(&mut r, 1, 12).trim_start_matches('-').to_string(),
         };
         options.push((key, val));
